@@ -160,8 +160,13 @@ pub fn ansi_preserving_slice(s: &str, start: usize) -> String {
                         // This section starts after `start`, so contributes all its bytes.
                         &s[a..b]
                     } else {
-                        // This section contributes those bytes that are >= start
-                        &s[(a + start - i)..b]
+                        // This section contributes those bytes that are >= start (from the
+                        // start of the character that `start` falls in, if it falls in one).
+                        let mut cut = a + start - i;
+                        while !s.is_char_boundary(cut) {
+                            cut -= 1;
+                        }
+                        &s[cut..b]
                     }
                 }
             })
